@@ -184,7 +184,7 @@ def _fmt_date(s):
     return '' if s is None else dt(s).strftime('%d.%m.%y')
 
 
-def serialise(spec, bom, quote_all, crlf, children_first, customs):
+def serialise(spec, bom, quote_all, crlf, children_first, customs, old_min_start=False):
     rows = list(spec['tasks'])
     if children_first:
         m = Model(spec)
@@ -207,7 +207,8 @@ def serialise(spec, bom, quote_all, crlf, children_first, customs):
                  '' if t['estimate'] is None else t['estimate'], '' if t['spent'] is None else t['spent'],
                  'True' if t['milestone'] else ('False' if t['id'] % 2 else ''),
                  '' if t['parent'] is None else t['parent'], ';'.join(str(p) for p in preds[t['id']])] + \
-                [_fmt_date(t.get('min_start')) if k == 'min_start' else norm_text((t.get('custom') or {}).get(k)) for k in customs]
+                [(_fmt_date(t.get('min_start')) if not (old_min_start and t.get('min_start')) else str(dt(t['min_start']))) if k == 'min_start'
+                 else norm_text((t.get('custom') or {}).get(k)) for k in customs]
         lines.append(';'.join(cell(c) for c in cells))
     text_ = eol.join(lines) + eol
     data = text_.encode('utf-8')
@@ -219,7 +220,9 @@ def hand_case(draw, max_tasks=7):
     c = draw(csv_case(max_tasks=max_tasks))
     bom = draw(st.booleans())
     c['variant'] = dict(bom=bom, quote_all=(not bom) and draw(st.booleans()), crlf=draw(st.booleans()),
-                        children_first=draw(st.booleans()), min_start_column=draw(st.booleans()))
+                        children_first=draw(st.booleans()), min_start_column=draw(st.booleans()),
+                        # versions before min_start became a date column wrote it as an ordinary attribute: str(datetime)
+                        old_min_start=draw(st.integers(0, 3)) == 0)
     for t in c['spec']['tasks']:
         t['custom'] = {k: (None if v is None else str(v)) for k, v in t['custom'].items()}
         if not c['variant']['min_start_column']:
@@ -237,7 +240,7 @@ def check_hand(case, exclude=True):
     customs = sorted({k for t in spec['tasks'] for k in (t.get('custom') or {})})
     if var['min_start_column']:
         customs = ['min_start'] + customs
-    data, rows = serialise(spec, var['bom'], var['quote_all'], var['crlf'], var['children_first'], customs)
+    data, rows = serialise(spec, var['bom'], var['quote_all'], var['crlf'], var['children_first'], customs, var.get('old_min_start', False))
     p = os.path.join(tmpdir(), '%d-h.csv' % os.getpid())
     with open(p, 'wb') as f:
         f.write(data)
